@@ -103,6 +103,10 @@ func (x *Exec) setup(fn *ssa.Function, key string, ct *Contract) {
 	for _, h := range names {
 		x.emit(fmt.Sprintf("(declare-const %s@0 %s)", h, x.S.heaps[h]))
 		x.entry.Heaps[h] = Term{h + "@0", x.S.heaps[h]}
+		if strings.HasPrefix(h, "GH$lock$") {
+			// functions are entered holding no lock
+			x.emit(fmt.Sprintf("(assert (= %s@0 ((as const %s) 0)))", h, x.S.heaps[h]))
+		}
 	}
 }
 
